@@ -119,10 +119,10 @@ Proof. intros bs. split; [apply onehop_no_panic | apply onehop_err_iff]. Qed.
 Print Assumptions C18_onehop_reject_total.
 
 (** all four registered path types behind path.NewPath: empty, SCION, one-hop, EPIC *)
-Theorem C18_path_dec_enc : forall p, wf_path p -> (forall d, p <> PDecoded d) ->
+Theorem C18_path_dec_enc : forall p, wf_path p -> (forall d, p <> PDecoded d) -> is_opaque p = false ->
   exists e, path_encode p = Ok e /\ length e = path_len p /\
             path_decode (path_type p) e = Ok (path_canon p, []).
-Proof. intros p W ND. destruct (path_dec_enc p W ND) as (e & E & L & D & _). eauto. Qed.
+Proof. intros p W ND NO. destruct (path_dec_enc p W ND NO) as (e & E & L & D & _). eauto. Qed.
 Print Assumptions C18_path_dec_enc.
 
 Theorem C18_path_enc_dec : forall pt bs p rest, wf_bytes bs -> path_decode pt bs = Ok (p, rest) ->
@@ -142,18 +142,18 @@ Qed.
 Print Assumptions C18_path_reject_total.
 
 (** ---------------------------------------------------------------- 3. SCION common + address header + path *)
-Theorem C18_scion_dec_enc : forall h, wf_scion h ->
+Theorem C18_scion_dec_enc : forall h, wf_scion h -> is_opaque (s_path h) = false ->
   exists e, scion_encode false 0 h = Ok e /\
     forall payload, scion_decode (e ++ payload) = Ok (scion_canon false 0 h, payload).
-Proof. intros h W. destruct (scion_dec_enc h W) as (e & E & _ & D). eauto. Qed.
+Proof. intros h W NO. destruct (scion_dec_enc h W NO) as (e & E & _ & D). eauto. Qed.
 Print Assumptions C18_scion_dec_enc.
 
 (** with FixLengths the serializer fills in HdrLen and PayloadLen itself *)
-Theorem C18_scion_dec_enc_fixlengths : forall h n, wf_scion_nolen h ->
+Theorem C18_scion_dec_enc_fixlengths : forall h n, wf_scion_nolen h -> is_opaque (s_path h) = false ->
   (scn_len h <= max_hdr_len)%nat -> Nat.modulo (scn_len h) line_len = 0%nat ->
   exists e, scion_encode true n h = Ok e /\
     forall payload, scion_decode (e ++ payload) = Ok (scion_canon true n h, payload).
-Proof. intros h n W M4 Mx. destruct (scion_dec_enc_fix h n W M4 Mx) as (e & E & _ & D). eauto. Qed.
+Proof. intros h n W NO M4 Mx. destruct (scion_dec_enc_fix h n W NO M4 Mx) as (e & E & _ & D). eauto. Qed.
 Print Assumptions C18_scion_dec_enc_fixlengths.
 
 (** reserved: bytes 10-11 of the common header and the path's reserved bits ([mask_scion]);
@@ -196,6 +196,49 @@ Proof.
   intros h payload W D. destruct (scion_enc_dec bs h payload W D) as (Wh & _ & _ & _ & L1 & L2 & _). auto.
 Qed.
 Print Assumptions C18_scion_reject_total.
+
+(** a header carrying a fully decoded path ([scion.Decoded]) — with or without FixLengths — is decoded
+    as the same header with the path in raw form ([scion_undecoded]), and that raw path decodes
+    (Raw.ToDecoded) to exactly the original info and hop fields *)
+Theorem C18_scion_dec_enc_decoded : forall (fx : bool) n h d, s_path h = PDecoded d -> wf_dec d ->
+  (if fx then wf_scion_nolen (scion_undecoded h) /\ (scn_len (scion_undecoded h) <= max_hdr_len)%nat /\
+              Nat.modulo (scn_len (scion_undecoded h)) line_len = 0%nat
+   else wf_scion (scion_undecoded h)) ->
+  exists e r, scion_encode fx n h = Ok e /\
+    s_path (scion_canon fx n (scion_undecoded h)) = PScion r /\ dec_decode (rp_raw r) = Ok (d, []) /\
+    forall payload, scion_decode (e ++ payload) = Ok (scion_canon fx n (scion_undecoded h), payload).
+Proof. exact scion_dec_enc_decoded. Qed.
+Print Assumptions C18_scion_dec_enc_decoded.
+
+(** a layer on which RecyclePaths() was called (router, dispatcher): unknown path types are kept as
+    opaque bytes ([POpaque]) instead of being rejected; on the registered path types it decodes
+    exactly like a fresh layer, it never panics, and the round trip holds for it as well *)
+Theorem C18_scion_recycled_same : forall bs, wf_bytes bs -> nth 8 bs 0 <= 3 ->
+  scion_decode_r bs = scion_decode bs.
+Proof. intros bs W H. now apply scion_r_same. Qed.
+Print Assumptions C18_scion_recycled_same.
+
+Theorem C18_scion_recycled_enc_dec_except_known : forall bs h payload,
+  wf_bytes bs -> scion_decode_r bs = Ok (h, payload) -> scion_slack h = 0%nat ->
+  exists e, scion_encode false 0 h = Ok e /\ e ++ payload = mask_scion bs.
+Proof.
+  intros bs h payload W D S. destruct (scion_r_enc_dec bs h payload W D) as (_ & _ & _ & _ & _ & _ & R).
+  exact (R S).
+Qed.
+Print Assumptions C18_scion_recycled_enc_dec_except_known.
+
+Theorem C18_scion_recycled_reject_total : forall bs,
+  scion_decode_r bs <> Panic /\
+  (wf_bytes bs -> scion_overlong bs = true -> scion_decode_r bs = Err) /\
+  (forall h payload, wf_bytes bs -> scion_decode_r bs = Ok (h, payload) ->
+     wf_scion_nolen h /\ s_pathtype h < 256 /\
+     length bs = (N.to_nat (s_hdrlen h) * line_len + length payload)%nat).
+Proof.
+  intros bs. split; [apply scion_r_no_panic|]. split; [apply scion_r_reject_overlong|].
+  intros h payload W D. destruct (scion_r_enc_dec bs h payload W D) as (Wh & _ & _ & _ & _ & L & _).
+  split; [exact Wh|]. split; [eapply scion_r_pathtype_lt; eauto | exact L].
+Qed.
+Print Assumptions C18_scion_recycled_reject_total.
 
 (** host addresses: the three supported types round-trip through PackAddr / ParseAddr, every
     other type nibble is rejected by ParseAddr *)
@@ -412,6 +455,22 @@ Definition ex_scion : scion :=
           [32;1;13;184;0;0;0;0;0;0;0;0;0;0;0;1] [0;2;0;0] (PScion ex_raw).
 Definition ex_ext : ext :=
   mkExt 17 0 [mkOpt 2 16 [0;1;0;2;0;0;0;0;0;0;0;5;170;187;204;221] 4 2].
+
+(** a header with the unregistered path type 7 and eight path bytes: rejected by a fresh layer, kept
+    as an opaque path and reproduced byte for byte by a recycling one *)
+Definition opaque_packet : bytes :=
+  [0;0;0;1; 17; 11; 0;2; 7; 0; 0;0] ++ repeat 1 24 ++ [1;2;3;4;5;6;7;8] ++ [9;9].
+
+Example C18_example_opaque :
+  scion_decode opaque_packet = Err /\
+  exists h, scion_decode_r opaque_packet = Ok (h, [9;9]) /\ s_path h = POpaque 7 [1;2;3;4;5;6;7;8] /\
+            scion_slack h = 0%nat /\
+            exists e, scion_encode false 0 h = Ok e /\ e ++ [9;9] = opaque_packet.
+Proof.
+  split; [vm_compute; reflexivity|].
+  eexists. split; [vm_compute; reflexivity|]. split; [reflexivity|]. split; [vm_compute; reflexivity|].
+  eexists. split; vm_compute; reflexivity.
+Qed.
 
 Example C18_example :
   wf_scionb ex_scion = true /\ wf_ext_fixb E2E ex_ext = true /\
